@@ -79,9 +79,9 @@ example : sites.length ≥ 150 := by decide +kernel
 example : certs.length ≥ 100 := by decide +kernel
 example : literalType.length ≥ 10 := by decide +kernel
 /-- the expectation tests of the translator: both repaired defects are now guarded … -/
-example : (sites.filter (fun s => s.key == "internal/explain.handleSpecialFunction | inExpr.List[0]")).map (·.cls) = ["first-elem"] := by
+example : (sites.filter (fun s => s.key == "internal/explain.handleSpecialFunction | $0:*ast.InExpr.List[0]")).map (·.cls) = ["first-elem"] := by
   decide +kernel
-example : (sites.filter (fun s => s.key == "parser.buildIntersectExceptTree | stmts[i]")).map (·.cls) = ["counted", "counted"] := by
+example : (sites.filter (fun s => s.key == "parser.buildIntersectExceptTree | $0:[]ast.Statement[$1:int]")).map (·.cls) = ["counted", "counted"] := by
   decide +kernel
 
 end DC.Props.C01Sites
